@@ -1,1 +1,290 @@
-/- C04 — property theorems (stub: not built yet). -/
+/-
+C04 — BMS reading places every object at the time its measure position and tempo imply.
+Property theorems about the executable reader model `Reamber/Model/BMS.lean` (tied to
+reamber/bms/{BMSMap,BMSChannel,BMSMapMeta}.py by the correspondence check and by the generated layout tables)
+against the by-the-book denotation `Reamber/Spec/BMS.lean`.  Helper lemmas: `Lemmas/BMS.lean`, `Lemmas/BMSTime.lean`.
+
+Full statement aimed at (kept visible; the theorems below are its proved parts):
+
+  ∀ layout lines d, denote (bookLayout layout) lines = some d →
+    lanes in position order in the file (¬D05) → tempo positions grid-compatible (¬D22) →
+    ∃ c, read defaultGrid (layoutOf layout) lines = .ok c ∧ c.hits ~ d.hits ∧ c.holds ~ d.holds ∧ c.header = d.header
+
+Proved: the layout tables (`layouts_tie`, `layouts_wellformed`), the slot formula (`slot_position`), the times
+(`bms_times_partial`: TimingMap.offsets = timeAt for every constant-metronome tempo list whose re-derived positions
+are the original ones), the pairing (`lnobj_pairing_partial`: stack discipline = by-the-book pairing on a lane
+in position order), order independence of hits (`hits_order_independent`), header retention (`header_retained`),
+and the two counterexamples that make the hypotheses necessary (D05, D22).
+Missing for the full statement: the text-level bridge "events of the reader's line loop = objects of `lineObjs`"
+for whole files (proved per pair in `slot_position`), `stableArgsort` is a sorting permutation, and
+`gridCompatible → re-derived positions are the original ones` (K1, C10's domain; evaluated directly by the driver
+as `resnap_stable` on every case instead).
+-/
+import Reamber.Lemmas.BMS
+import Reamber.Lemmas.BMSTime
+import Reamber.Props.C10
+
+namespace Reamber.BMS
+
+open Reamber.Timing
+
+/-! ### generated tables -/
+
+/-- Tie to the source: the five layouts the translator read from `BMSChannel` are exactly the by-the-book
+tables of the specification (same header channels, same set of (channel, column) pairs), the layout names are the five the property names, and the constants of the model
+are the ones in `BMSMap.py`. Re-checked whenever the source changes. -/
+def Layout.sameAs (a b : Layout) : Bool :=
+  a.timeSig = b.timeSig && a.bpmCh = b.bpmCh && a.exbpmCh = b.exbpmCh && a.lanes.length = b.lanes.length &&
+  a.lanes.all (fun p => b.lanes.contains p) && b.lanes.all (fun p => a.lanes.contains p)
+
+theorem layouts_tie :
+    Generated.BMS.layoutNames = ["BMS", "BME", "PMS", "PMS_BME", "PMS_5B"] ∧
+    (∀ n ∈ Generated.BMS.layoutNames,
+      (match layoutOf n, bookLayout n with
+       | some a, some b => a.sameAs b
+       | _, _ => false) = true) ∧
+    Generated.BMS.defaultMetronome = 4 ∧ Generated.BMS.maxKeys = 18 ∧
+    Generated.BMS.defaultLayoutRead = "BME" ∧ Generated.BMS.encoding = "shift_jis" := by
+  decide +kernel
+
+/-- columns of a layout are exactly `0 … n-1`, each used once; channels are distinct, differ from the three
+header channels and fit the reader's `MAX_KEYS` stacks -/
+def Layout.wellFormed (l : Layout) : Bool :=
+  let chans := l.lanes.map (·.1)
+  let cols := l.lanes.map (·.2)
+  chans.Nodup && cols.Nodup && cols.all (fun c => decide (c < l.lanes.length)) &&
+  (List.range l.lanes.length).all (fun c => cols.contains c) &&
+  cols.all (fun c => decide (c < maxKeys)) &&
+  !(chans.contains l.timeSig) && !(chans.contains l.bpmCh) && !(chans.contains l.exbpmCh) &&
+  chans.all (fun c => c.length = 2)
+
+/-- **The five generated layouts are injective and onto `0..n-1`** (so `channel ↦ column` and the writer's
+`column ↦ channel` are inverse bijections, and no lane index overflows the reader's stacks). -/
+theorem layouts_wellformed :
+    ∀ n ∈ Generated.BMS.layoutNames, ∃ l, layoutOf n = some l ∧ l.wellFormed = true := by
+  decide +kernel
+
+/-- on a well-formed layout the two lookups are inverse -/
+theorem channelOf_laneOf :
+    ∀ n ∈ Generated.BMS.layoutNames, ∀ l, layoutOf n = some l →
+      (∀ p ∈ l.lanes, channelOf l p.2 = some p.1 ∧ laneOf l p.1 = some p.2) := by
+  decide +kernel
+
+/-! ### slot formula -/
+
+/-- **Object `i` of `n` in measure `m` sits at beat `4·i/n` of that measure**: the reader's event for a
+non-empty pair on a lane channel is a note (or LNOBJ marker) of the lane's column at exactly the by-the-book
+position of `lineObjs`, and the position is inside the measure. -/
+theorem slot_position (ctx : Ctx) (m : Nat) (ch pair : Bytes) (n i col : Nat) (hi : i < n)
+    (hp : pair ≠ ['0', '0'] ∧ pair ≠ ['0']) (hch : ch ≠ ctx.layout.bpmCh ∧ ch ≠ ctx.layout.exbpmCh)
+    (hl : laneOf ctx.layout ch = some col) :
+    pairEvent ctx (m : Int) ch n i pair =
+      some (.note col (decide (pair = ctx.lnEnd)) (if pair = ctx.lnEnd then [] else (dictGet? ctx.samples pair).getD [])
+        ⟨(m : Int), 4 * ((i : Nat) : Rat) / ((n : Nat) : Rat), none⟩) ∧
+    0 ≤ 4 * ((i : Nat) : Rat) / ((n : Nat) : Rat) ∧ 4 * ((i : Nat) : Rat) / ((n : Nat) : Rat) < 4 := by
+  have hn : n ≠ 0 := by omega
+  have hnq : (0 : Rat) < ((n : Nat) : Rat) := by exact_mod_cast Nat.pos_of_ne_zero hn
+  have hiq : ((i : Nat) : Rat) < ((n : Nat) : Rat) := by exact_mod_cast hi
+  have hi0 : (0 : Rat) ≤ ((i : Nat) : Rat) := by exact_mod_cast Nat.zero_le i
+  refine ⟨?_, ?_, ?_⟩
+  · have hdm : defMet = 4 := by decide +kernel
+    have hbeat : ((i : Nat) : Rat) / ((n : Nat) : Rat) * defMet = 4 * ((i : Nat) : Rat) / ((n : Nat) : Rat) := by
+      rw [hdm]; ring
+    unfold pairEvent
+    simp only [hp.1, hp.2, hn, hch.1, hch.2, hl, hbeat, decide_false, Bool.or_self, Bool.false_eq_true, if_false]
+    by_cases hln : pair = ctx.lnEnd
+    · simp [hln]
+    · simp [hln]
+  · apply div_nonneg <;> linarith
+  · rw [div_lt_iff₀ hnq]; linarith
+
+/-! ### times -/
+
+/-- **`TimingMap.offsets` = piecewise-linear integration of beat length** for the tempo list of a 4/4 file.
+
+`cs = c0 :: rest` is what the reader hands to `from_bpm_changes_snap`: ascending, first at measure 0 beat 0,
+every change normalised with metronome `M`.  If re-deriving the positions from the millisecond offsets gives
+them back (`hst`, the hypothesis D22 violates), then the timing map is the list of `timeAt` change times and
+every query at a non-negative position — in any order, with duplicates, for any sorting permutation numpy
+chooses — is answered by `timeAt 0 cs`.
+
+`_partial`: the full statement has `gridCompatible (grid 96) cs` in place of `hst` (that implication is K1/C10's)
+and `stableArgsort` in place of an arbitrary sorting permutation `σ`. -/
+theorem bms_times_partial (g : Array Rat) (M : Rat) (hM : 0 < M) (c0 : BcSnap) (rest : List BcSnap)
+    (h0 : c0.snap.measure = 0 ∧ c0.snap.beat = 0) (hgood : ∀ c ∈ c0 :: rest, GoodChange M c) (hch : ChainLe c0 rest)
+    (hst : bcsOfBco g (⟨c0.bpm, c0.met, 0⟩ :: cumTimes 0 c0 rest) = .ok (⟨c0.bpm, c0.met, 0⟩ :: cumTimes 0 c0 rest, c0 :: rest)) :
+    fromBcSnap 0 (c0 :: rest) false = .ok (⟨c0.bpm, c0.met, 0⟩ :: cumTimes 0 c0 rest) ∧
+    ∀ (σ : List Nat) (qs : List Snap), SortsAsc σ qs → (∀ q ∈ qs, 0 ≤ q.measure ∧ 0 ≤ q.beat) →
+      offsetsWith g σ (⟨c0.bpm, c0.met, 0⟩ :: cumTimes 0 c0 rest) qs = .ok (qs.map (timeAt 0 (c0 :: rest))) := by
+  have hc0 : GoodChange M c0 := hgood c0 (by simp)
+  have hrest : ∀ c ∈ rest, GoodChange M c := fun c hc => hgood c (by simp [hc])
+  constructor
+  · have hsort : sortBcSnap (c0 :: rest) = c0 :: rest := sortBcSnap_chain c0 rest hch
+    unfold fromBcSnap
+    simp only [hsort, h0.1, h0.2, ne_eq, not_true_eq_false, or_self, if_false, Bool.false_eq_true, false_and]
+    unfold fromBcSnapNoReseat
+    simp only [hsort, h0.1, h0.2, ne_eq, not_true_eq_false, or_self, if_false]
+    rw [cumOffsets_eq M hM rest 0 c0 hc0 hrest hch]
+    rfl
+  · intro σ qs hσ hq
+    apply offsetsWith_order g σ _ qs _ _ (timeAt 0 (c0 :: rest)) hst hσ
+    intro q hqm
+    have hle : c0.snap.le q = true := by
+      have := hq q hqm
+      simp only [Snap.le, Snap.lt, Snap.eqv, h0.1, h0.2, Bool.or_eq_true, Bool.and_eq_true, decide_eq_true_eq]
+      rcases lt_or_eq_of_le this.1 with h | h
+      · exact Or.inl (Or.inl h)
+      · rcases lt_or_eq_of_le this.2 with h2 | h2
+        · exact Or.inl (Or.inr ⟨h, h2⟩)
+        · exact Or.inr ⟨h, h2⟩
+    exact lookupOffset_eq_timeAtAux M hM q (hq q hqm).2 rest 0 c0 hc0 hrest hch hle
+
+/-- non-vacuity of `bms_times_partial`: a two-change tempo list satisfying every hypothesis (grid 4) -/
+example :
+    let c0 : BcSnap := ⟨120, 4, ⟨0, 0, some 4⟩⟩
+    let rest : List BcSnap := [⟨60, 4, ⟨1, 2, some 4⟩⟩]
+    (∀ c ∈ c0 :: rest, GoodChange 4 c) ∧ ChainLe c0 rest ∧
+    bcsOfBco (grid 4).toArray (⟨c0.bpm, c0.met, 0⟩ :: cumTimes 0 c0 rest) = .ok (⟨c0.bpm, c0.met, 0⟩ :: cumTimes 0 c0 rest, c0 :: rest) := by
+  refine ⟨?_, ?_, ?_⟩
+  · intro c hc
+    simp only [List.mem_cons, List.not_mem_nil, or_false] at hc
+    rcases hc with rfl | rfl <;> (unfold GoodChange; decide +kernel)
+  · simp only [ChainLe, and_true]; decide +kernel
+  · decide +kernel
+
+/-- **D22 (mechanism, on the grid of 4).** A tempo object at slot 1/5 of measure 1 is not on the snap grid: the
+timing map re-derives its position as beat 3/4 instead of 4/5, and the note at measure 2 is read 50 ms late
+(5650 instead of 5600).  `hst` of `bms_times_partial` is what fails.  The instance on the shipped grid of 96
+(slots 1/64 and 1/28) is the committed witness replayed on every run. -/
+theorem bms_incompatible_tempo_counterexample :
+    let lines := ["#BPM 120".toList, "#00103:003C000000".toList, "#00211:01".toList]
+    (match layoutOf "BME", bookLayout "BME" with
+     | some l, some b =>
+       (match read (grid 4).toArray l lines, denote b lines with
+        | .ok c, some d =>
+          decide (c.hits.map (·.offset) = [5650] ∧ d.hits.map (·.offset) = [5600]) && !(gridCompatible (grid 4) d.tempo)
+        | _, _ => false)
+     | _, _ => false) = true := by
+  decide +kernel
+
+/-! ### long notes -/
+
+/-- **LNOBJ pairing.** Lane `k` of the reader, fed the objects `os` of that lane in file order (`hev`), when
+the file order is the position order (`hord` — what D05 lacks): if the by-the-book pairing of the lane is
+defined, the reader's stacks hold exactly its hits and holds, in the same order.
+
+`_partial`: `hev` (the lane's events are the lane's objects) is proved per pair (`slot_position`), not for
+whole files. -/
+theorem lnobj_pairing_partial (lnobj : Option Bytes) (lnEnd : Bytes) (sampleOf : Bytes → Bytes) (k : Nat)
+    (evs : List Ev) (st st' : St) (os : List Obj) (H : List SHit) (L : List SHold)
+    (hrun : foldlE applyEv st evs = .ok st') (hinit : st.lanes k = ⟨[], []⟩)
+    (hev : laneEvs k evs = os.map (objEv lnEnd sampleOf))
+    (hln : ∀ o ∈ os, (some o.id = lnobj ↔ o.id = lnEnd))
+    (hord : sortObjs os = os)
+    (hspec : pairLane lnobj sampleOf k none (sortObjs os) = some (H, L)) :
+    (st'.lanes k).hits.reverse = H.map SHit.toHitS ∧ (st'.lanes k).holds.reverse = L.map SHold.toHoldS := by
+  have h1 := lanes_independent k evs st st' hrun
+  rw [hord] at hspec
+  have h2 := pairing_invariant lnobj lnEnd sampleOf k os hln none [] [] H L hspec
+  rw [hinit, hev] at h1
+  simp only [Option.toList, List.map_nil, List.append_nil] at h2
+  rw [h2] at h1
+  injection h1 with h1
+  rw [← h1]
+  simp
+
+/-- non-vacuity of `lnobj_pairing_partial` / `pairing_invariant`: head, tail, hit in position order -/
+example :
+    let os : List Obj := [⟨⟨1, 0, some 4⟩, "01".toList⟩, ⟨⟨1, 2, some 4⟩, "ZZ".toList⟩, ⟨⟨2, 0, some 4⟩, "02".toList⟩]
+    sortObjs os = os ∧ (∀ o ∈ os, (some o.id = some "ZZ".toList ↔ o.id = "ZZ".toList)) ∧
+    pairLane (some "ZZ".toList) (fun _ => []) 3 none (sortObjs os) =
+      some ([⟨3, [], ⟨2, 0, some 4⟩⟩], [⟨3, [], ⟨1, 0, some 4⟩, ⟨1, 2, some 4⟩⟩]) := by
+  refine ⟨by decide +kernel, ?_, by decide +kernel⟩
+  intro o _
+  simp
+
+/-- **D05.** With the two lines of a long note in the "wrong" file order the reader raises
+"Failed to match LN Tail" although the text has a by-the-book meaning (one hold from measure 1 to measure 2). -/
+theorem lnobj_unordered_counterexample :
+    let lines := ["#BPM 120".toList, "#LNOBJ ZZ".toList, "#00211:ZZ".toList, "#00111:01".toList]
+    (match layoutOf "BME" with
+     | some l => (match read (grid 4).toArray l lines with
+                  | .error .lnTail => true
+                  | _ => false)
+     | none => false) = true ∧
+    (match bookLayout "BME" with
+     | some l => (match denote l lines with
+                  | some d => decide (d.hits = [] ∧ d.holds = [⟨1, [], 2000, 2000⟩])
+                  | none => false)
+     | none => false) = true := by
+  decide +kernel
+
+/-! ### order independence -/
+
+/-- **Hits do not depend on the order of the lines.** For two arrangements of the same data lines, when no
+event is an `#LNOBJ` marker or a failure, the reader ends with the same hits in every lane up to order. -/
+theorem hits_order_independent (ctx : Ctx) (n₁ n₂ : List (Bytes × Bytes × Bytes)) (st st₁ st₂ : St)
+    (hperm : n₁.Perm n₂)
+    (hnt : ∀ e ∈ events ctx n₁, ∀ c t s p, e = .note c t s p → t = false)
+    (h₁ : foldlE applyEv st (events ctx n₁) = .ok st₁) (h₂ : foldlE applyEv st (events ctx n₂) = .ok st₂) :
+    ∀ k, ((st₁.lanes k).hits).Perm ((st₂.lanes k).hits) ∧ (st₁.lanes k).holds = (st₂.lanes k).holds := by
+  intro k
+  have hp := events_perm ctx hperm
+  have hnt₂ : ∀ e ∈ events ctx n₂, ∀ c t s p, e = .note c t s p → t = false :=
+    fun e he => hnt e (hp.mem_iff.mpr he)
+  have key : ∀ (evs : List Ev), (∀ e ∈ evs, ∀ c t s p, e = .note c t s p → t = false) → ∀ e ∈ laneEvs k evs, e.1 = false := by
+    intro evs hh e he
+    simp only [laneEvs, List.mem_filterMap] at he
+    obtain ⟨ev, hev, hval⟩ := he
+    cases ev with
+    | bad _ => simp at hval
+    | tempo _ => simp at hval
+    | note c t s p =>
+      by_cases hc : c = k
+      · simp only [hc, if_true, Option.some.injEq] at hval
+        rw [← hval]
+        exact hh _ hev c t s p rfl
+      · simp [hc] at hval
+  have e₁ := lanes_independent k _ st st₁ h₁
+  have e₂ := lanes_independent k _ st st₂ h₂
+  rw [laneFold_no_tail _ _ (key _ hnt)] at e₁
+  rw [laneFold_no_tail _ _ (key _ hnt₂)] at e₂
+  injection e₁ with e₁
+  injection e₂ with e₂
+  rw [← e₁, ← e₂]
+  refine ⟨?_, rfl⟩
+  apply List.Perm.append_right
+  exact (List.reverse_perm _).trans (((laneEvs_perm k hp).map _).trans (List.reverse_perm _).symm)
+
+/-! ### header -/
+
+/-- **Header fields are retained**: whatever the reader returns carries the header record computed from the
+header lines (title, artist, level, `#LNOBJ`, `#BPMxx` table, `#WAVxx` table, initial tempo, every other
+key in file order), and that record is the denotation's.  (Both sides use the same lexer: see Spec/BMS.lean.) -/
+theorem header_retained (g : Array Rat) (lay lay' : Layout) (lines : List Bytes) (c : Chart) (d : Denotation)
+    (hr : read g lay lines = .ok c) (hd : denote lay' lines = some d) : c.header = d.header := by
+  unfold read at hr
+  unfold denote at hd
+  cases hdoc : parseDoc lines with
+  | error e => simp [hdoc, bind, Except.bind] at hr
+  | ok doc =>
+    cases hh : readHeader doc.header with
+    | error e => simp [hdoc, hh, bind, Except.bind] at hr
+    | ok hdr =>
+      simp only [hdoc, hh, bind, Except.bind] at hr hd
+      have hc : c.header = hdr := by
+        by_cases hb : hdr.bpm0 ≤ 0
+        · simp [hb] at hr
+        · simp only [hb, if_false] at hr
+          split at hr
+          · cases hr
+          · split at hr
+            · cases hr
+            · injection hr with hr; rw [← hr]
+      have hdh : d.header = hdr := by
+        split at hd
+        · cases hd
+        · injection hd with hd; rw [← hd]
+      rw [hc, hdh]
+
+end Reamber.BMS
